@@ -4,7 +4,7 @@ C33 — schema changes keep catalog, storage and indexes consistent.
 
 `DdlInv`: catalog and storage hold the same tables (same names, same order); every
 user-defined index names an existing table; every stored row is as wide as the stored table's
-own schema.  Preserved by EVERY step (CREATE/DROP TABLE, CREATE/DROP INDEX, INSERT,
+own schema.  Preserved by EVERY step norm (CREATE/DROP TABLE, CREATE/DROP INDEX, INSERT,
 DELETE/TRUNCATE, ALTER TABLE ADD/DROP COLUMN), hence by every history, names reused or not.
 Corollaries: a dropped table leaves no index and no storage entry; a re-created table is empty
 and index-free; ADD COLUMN keeps every existing value.
@@ -16,6 +16,8 @@ of the declared width is accepted (`C33_insert_of_declared_width_accepted`).
 -/
 namespace VibeProof.C33
 open VibeProof VibeProof.Ddl
+
+variable (norm : String → String)
 
 def Names (s : DState) : Prop := s.catalog.map (fun e => e.1) = s.stored.map (fun e => e.1)
 
@@ -67,8 +69,8 @@ theorem updCatalog_inv (s : DState) (n : String) (g : List String → List Strin
   · unfold Names; rw [updCatalog_names]; exact h1
   · intro ix hix; rw [updCatalog_names]; exact h2 ix hix
 
-/-- every step keeps catalog, storage and index registry consistent -/
-theorem C33_step_preserves (s : DState) (op : DOp) (h : DdlInv s) : DdlInv (step s op).1 := by
+/-- every step norm keeps catalog, storage and index registry consistent -/
+theorem C33_step_preserves (s : DState) (op : DOp) (h : DdlInv s) : DdlInv (step norm s op).1 := by
   cases op with
   | createTable n cols =>
     simp only [step]
@@ -125,11 +127,39 @@ theorem C33_step_preserves (s : DState) (op : DOp) (h : DdlInv s) : DdlInv (step
           · exact (catCols_isSome s n).mp (by rw [hc]; rfl)
       · exact h
   | dropIndex i =>
+    obtain ⟨h1, h2, h3⟩ := h
     simp only [step]
     split
-    · obtain ⟨h1, h2, h3⟩ := h
-      exact ⟨h1, fun ix hix => h2 ix (List.mem_filter.mp hix).1, h3⟩
+    · exact ⟨h1, fun ix hix => h2 ix (List.mem_filter.mp hix).1, h3⟩
+    · split
+      · exact ⟨h1, fun ix hix => h2 ix (List.mem_filter.mp hix).1, h3⟩
+      · exact ⟨h1, h2, h3⟩
+  | changeColumn n old new =>
+    simp only [step]
+    split
     · exact h
+    · split
+      · split
+        · exact h
+        · have h1 : DdlInv (updCatalog (updStored s n (renameCol old new)) n (colsRename old new)) := by
+            apply updCatalog_inv
+            apply updStored_inv _ _ _ h
+            intro t ht r' hr'
+            simp only [renameCol, colsRename, List.length_map] at hr' ⊢
+            exact ht r' hr'
+          obtain ⟨a, b, c3⟩ := h1
+          refine ⟨a, ?_, c3⟩
+          intro ix hix
+          simp only [List.mem_map] at hix
+          obtain ⟨d, hd, rfl⟩ := hix
+          have := b d hd
+          split <;> exact this
+      · exact h
+  | modifyColumn n c =>
+    simp only [step]
+    split
+    · exact h
+    · split <;> exact h
   | insert n r =>
     simp only [step]
     split
@@ -195,17 +225,17 @@ theorem C33_init : DdlInv init := by
   · intro e h; cases h
 
 /-- after any history of DDL and DML, whatever names are reused, the registries are consistent -/
-theorem C33_history_preserves (ops : List DOp) : ∀ s, DdlInv s → DdlInv (run s ops) := by
+theorem C33_history_preserves (ops : List DOp) : ∀ s, DdlInv s → DdlInv (run norm s ops) := by
   induction ops with
   | nil => intro s h; exact h
-  | cons op ops ih => intro s h; exact ih _ (C33_step_preserves s op h)
+  | cons op ops ih => intro s h; exact ih _ (C33_step_preserves norm s op h)
 
 /-- a dropped table leaves no index, no catalog entry and no stored table behind -/
 theorem C33_dropped_table_leaves_nothing (s : DState) (n : String)
-    (hok : (step s (.dropTable n)).2 = none) :
-    (∀ ix ∈ (step s (.dropTable n)).1.reg, ix.table ≠ n) ∧
-    n ∉ (step s (.dropTable n)).1.catalog.map (fun e => e.1) ∧
-    n ∉ (step s (.dropTable n)).1.stored.map (fun e => e.1) := by
+    (hok : (step norm s (.dropTable n)).2 = none) :
+    (∀ ix ∈ (step norm s (.dropTable n)).1.reg, ix.table ≠ n) ∧
+    n ∉ (step norm s (.dropTable n)).1.catalog.map (fun e => e.1) ∧
+    n ∉ (step norm s (.dropTable n)).1.stored.map (fun e => e.1) := by
   simp only [step] at hok ⊢
   by_cases hc : (catCols s n).isSome = true
   · simp only [hc, ↓reduceIte]
@@ -218,12 +248,12 @@ theorem C33_dropped_table_leaves_nothing (s : DState) (n : String)
 
 /-- a table re-created under a dropped name starts empty, with the new columns and no index -/
 theorem C33_recreated_table_is_fresh (s : DState) (n : String) (cols : List String)
-    (hd : (step s (.dropTable n)).2 = none) :
-    let s2 := (step (step s (.dropTable n)).1 (.createTable n cols)).1
+    (hd : (step norm s (.dropTable n)).2 = none) :
+    let s2 := (step norm (step norm s (.dropTable n)).1 (.createTable n cols)).1
     stTable s2 n = some { cols := cols, rows := [] } ∧ catCols s2 n = some cols ∧
       ∀ ix ∈ s2.reg, ix.table ≠ n := by
-  obtain ⟨h1, h2, h3⟩ := C33_dropped_table_leaves_nothing s n hd
-  generalize (step s (.dropTable n)).1 = s1 at h1 h2 h3
+  obtain ⟨h1, h2, h3⟩ := C33_dropped_table_leaves_nothing norm s n hd
+  generalize (step norm s (.dropTable n)).1 = s1 at h1 h2 h3
   have hnone : (catCols s1 n).isSome = false := by
     cases hh : (catCols s1 n).isSome with
     | false => rfl
@@ -291,7 +321,7 @@ theorem alter_lock (s : DState) (n : String) (f : STable → STable) (g : List S
   · rw [hfg]
   · rfl
 
-theorem step_lock (s : DState) (op : DOp) (h : Lock s) : Lock (step s op).1 := by
+theorem step_lock (s : DState) (op : DOp) (h : Lock s) : Lock (step norm s op).1 := by
   cases op with
   | createTable n cols =>
     simp only [step]; split
@@ -308,7 +338,10 @@ theorem step_lock (s : DState) (op : DOp) (h : Lock s) : Lock (step s op).1 := b
     · split
       · split <;> exact h
       · exact h
-  | dropIndex i => simp only [step]; split <;> exact h
+  | dropIndex i =>
+    simp only [step]; split
+    · exact h
+    · split <;> exact h
   | insert n r =>
     simp only [step]; split
     · split
@@ -336,23 +369,35 @@ theorem step_lock (s : DState) (op : DOp) (h : Lock s) : Lock (step s op).1 := b
       · split
         · exact alter_lock _ _ _ _ h (fun _ => rfl)
         · exact h
+  | changeColumn n old new =>
+    simp only [step]; split
+    · exact h
+    · split
+      · split
+        · exact h
+        · exact alter_lock _ _ _ _ h (fun _ => rfl)
+      · exact h
+  | modifyColumn n c =>
+    simp only [step]; split
+    · exact h
+    · split <;> exact h
 
-theorem run_lock (ops : List DOp) : ∀ s, Lock s → Lock (run s ops) := by
+theorem run_lock (ops : List DOp) : ∀ s, Lock s → Lock (run norm s ops) := by
   induction ops with
   | nil => intro s h; exact h
-  | cons op ops ih => intro s h; exact ih _ (step_lock s op h)
+  | cons op ops ih => intro s h; exact ih _ (step_lock norm s op h)
 
 /-- after EVERY history (CREATE/DROP TABLE, CREATE/DROP INDEX, INSERT, DELETE/TRUNCATE, ALTER TABLE
 ADD/DROP COLUMN, names reused) catalog and storage agree on the columns of every table -/
-theorem C33_agree (ops : List DOp) : Agree (run init ops) :=
-  Lock_agree _ (run_lock ops init rfl)
+theorem C33_agree (ops : List DOp) : Agree (run norm init ops) :=
+  Lock_agree _ (run_lock norm ops init rfl)
 
 /-- hence every listed table accepts a row of its declared width -/
 theorem C33_insert_of_declared_width_accepted (ops : List DOp) (n : String) (tc : List String)
-    (r : Row) (hc : catCols (run init ops) n = some tc) (hr : r.length = tc.length) :
-    (step (run init ops) (.insert n r)).2 = none := by
-  have hl := run_lock ops init rfl
-  generalize run init ops = s at hc hl
+    (r : Row) (hc : catCols (run norm init ops) n = some tc) (hr : r.length = tc.length) :
+    (step norm (run norm init ops) (.insert n r)).2 = none := by
+  have hl := run_lock norm ops init rfl
+  generalize run norm init ops = s at hc hl
   have h1 := Lock_catCols s hl n
   rw [hc] at h1
   cases ht : stTable s n with
@@ -366,12 +411,12 @@ theorem C33_insert_of_declared_width_accepted (ops : List DOp) (n : String) (tc 
 /-- ALTER leaves the table usable: the widened table accepts the wider row and the old width is
 refused; an index on a dropped column goes away with it -/
 theorem C33_alter_keeps_table_usable :
-    let s := run init [.createTable "T" ["A", "B"], .createIndex "I" "T" ["B"], .insert "T" [.int 1, .int 2],
+    let s := run (fun x => x) init [.createTable "T" ["A", "B"], .createIndex "I" "T" ["B"], .insert "T" [.int 1, .int 2],
       .addColumn "T" "C", .insert "T" [.int 3, .int 4, .int 5], .dropColumn "T" "B"]
     catCols s "T" = some ["A", "C"] ∧
     stTable s "T" = some { cols := ["A", "C"], rows := [[.int 1, .null], [.int 3, .int 5]] } ∧
-    s.reg = [] ∧ (step s (.insert "T" [.int 6, .int 7])).2 = none ∧
-    (step s (.insert "T" [.int 6, .int 7, .int 8])).2 = some .columnCount := by
+    s.reg = [] ∧ (step (fun x => x) s (.insert "T" [.int 6, .int 7])).2 = none ∧
+    (step (fun x => x) s (.insert "T" [.int 6, .int 7, .int 8])).2 = some .columnCount := by
   decide
 
 /-- the indexes offered to a query on a stored table `n` are indexes OF table `n` — whatever
@@ -394,17 +439,287 @@ theorem C33_index_lookup (norm : String → String) (s : DState) (n : String) (i
 
 /-- non-vacuity: `"t"` and `T` both exist, each with an index; each lookup returns its own -/
 example :
-    let s := run init [.createTable "t" ["A"], .createTable "T" ["A"], .createIndex "I1" "t" ["A"],
+    let s := run (fun x => x) init [.createTable "t" ["A"], .createTable "T" ["A"], .createIndex "I1" "t" ["A"],
       .createIndex "I2" "T" ["A"]]
     let up : String → String := fun x => if x = "t" then "T" else x
     (indexesFor up s "T").map (fun ix => ix.name) = ["I2"] ∧
     (indexesFor up s "t").map (fun ix => ix.name) = ["I1"] := by
   decide
 
+/-! ### catalog index list = storage registry, for every key normalisation
+
+The catalog addresses an index by (table, name AS WRITTEN), the storage registry by the
+NORMALISED name.  `RegInv`: the registry's metadata, in order, is the catalog's list; every key is
+the normalised name of its metadata; keys are distinct.  It is preserved by every statement for an
+ARBITRARY normalisation function `norm`, because every executor that removes a registry entry
+removes the catalog entry under the name stored in that entry's metadata
+(`catalog.drop_index(&metadata.table_name, &metadata.index_name)`), never under the key. -/
+
+def RegInv (s : DState) : Prop :=
+  s.sreg.map (fun e => e.2) = s.reg ∧ (∀ e ∈ s.sreg, e.1 = norm e.2.name) ∧
+  (s.sreg.map (fun e => e.1)).Nodup
+
+theorem key_inj (l : List (String × DIndex)) (hn : (l.map (fun e => e.1)).Nodup) :
+    ∀ e ∈ l, ∀ e' ∈ l, e.1 = e'.1 → e = e' := by
+  induction l with
+  | nil => intro e he; cases he
+  | cons a l ih =>
+    simp only [List.map_cons, List.nodup_cons, List.mem_map, not_exists, not_and] at hn
+    intro e he e' he' hk
+    simp only [List.mem_cons] at he he'
+    rcases he with rfl | he <;> rcases he' with rfl | he'
+    · rfl
+    · exact absurd hk.symm (hn.1 e' he')
+    · exact absurd hk (hn.1 e he)
+    · exact ih hn.2 e he e' he' hk
+
+theorem RegInv_congr (s s' : DState) (h : RegInv norm s) (h1 : s'.reg = s.reg) (h2 : s'.sreg = s.sreg) :
+    RegInv norm s' := by
+  unfold RegInv at h ⊢; rw [h1, h2]; exact h
+
+/-- removing from both lists by predicates that agree entry by entry keeps them in step -/
+theorem sync_filter (s : DState) (p : String × DIndex → Bool) (q : DIndex → Bool)
+    (h : RegInv norm s) (hpq : ∀ e ∈ s.sreg, p e = q e.2) :
+    RegInv norm { s with sreg := s.sreg.filter p, reg := s.reg.filter q } := by
+  obtain ⟨h1, h2, h3⟩ := h
+  refine ⟨?_, ?_, ?_⟩
+  · simp only
+    rw [← h1, List.filter_map]
+    congr 1
+    apply List.filter_congr
+    intro e he; exact hpq e he
+  · intro e he; exact h2 e (List.mem_filter.mp he).1
+  · exact h3.sublist ((List.filter_sublist).map _)
+
+/-- the catalog entries addressed by the metadata of the registry entries naming column `c` of
+table `n` are exactly the catalog entries naming it — whatever the registry's key normalisation -/
+theorem addressed_iff (s : DState) (n c : String) (h : RegInv norm s) (e : String × DIndex)
+    (he : e ∈ s.sreg) :
+    addressed (s.sreg.filter (fun e => namesCol n c e.2)) e.2 = namesCol n c e.2 := by
+  obtain ⟨_, h2, h3⟩ := h
+  cases hc : namesCol n c e.2 with
+  | true =>
+    simp only [addressed, List.any_eq_true, List.mem_filter, Bool.and_eq_true, beq_iff_eq]
+    exact ⟨e, ⟨he, hc⟩, rfl, rfl⟩
+  | false =>
+    simp only [addressed, List.any_eq_false, List.mem_filter, Bool.and_eq_true, beq_iff_eq, not_and]
+    intro v hv ht hname
+    have hk : v.1 = e.1 := by rw [h2 v hv.1, h2 e he, hname]
+    have := key_inj _ h3 v hv.1 e he hk
+    subst this
+    rw [hc] at hv; exact absurd hv.2 (by simp)
+
+/-- ALTER TABLE … DROP COLUMN removes from BOTH lists exactly the indexes whose metadata names the
+dropped column, for every spelling of the index names and every key normalisation -/
+theorem C33_drop_column_removes_exactly (s : DState) (n c : String) (h : RegInv norm s)
+    (hok : (step norm s (.dropColumn n c)).2 = none) :
+    (step norm s (.dropColumn n c)).1.reg = s.reg.filter (fun d => !(namesCol n c d)) ∧
+    (step norm s (.dropColumn n c)).1.sreg = s.sreg.filter (fun e => !(namesCol n c e.2)) := by
+  simp only [step] at hok ⊢
+  split at hok
+  · cases hok
+  · split at hok
+    · cases hok
+    · split at hok
+      · rename_i h1 h2 h3
+        simp only [h1, h2, h3, ↓reduceIte, updCatalog, updStored, and_true]
+        rw [← h.1, List.filter_map, List.filter_map]
+        congr 1
+        apply List.filter_congr
+        intro e he
+        simp only [Function.comp]
+        rw [h.1, addressed_iff norm s n c h e he]
+      · cases hok
+
+theorem RegInv_init : RegInv norm init := by
+  refine ⟨rfl, ?_, List.nodup_nil⟩
+  intro e he; cases he
+
+/-- every statement keeps the catalog's index list and the storage registry in step -/
+theorem C33_registries_step (s : DState) (op : DOp) (h : RegInv norm s) :
+    RegInv norm (step norm s op).1 := by
+  cases op with
+  | createTable n cols =>
+    simp only [step]; split
+    · exact h
+    · exact RegInv_congr norm s _ h rfl rfl
+  | dropTable n =>
+    simp only [step]; split
+    · have := sync_filter norm s
+        (fun e => !((s.reg.filter (fun ix => decide (ix.table = n))).any (fun d => norm d.name == e.1)))
+        (fun ix => decide (ix.table ≠ n)) h (by
+          intro e he
+          obtain ⟨h1, h2, h3⟩ := h
+          by_cases ht : e.2.table = n
+          · have hmem : e.2 ∈ s.reg := by rw [← h1]; exact List.mem_map.mpr ⟨e, he, rfl⟩
+            have : (s.reg.filter (fun ix => decide (ix.table = n))).any (fun d => norm d.name == e.1) = true := by
+              simp only [List.any_eq_true, List.mem_filter, decide_eq_true_eq, beq_iff_eq]
+              exact ⟨e.2, ⟨hmem, ht⟩, (h2 e he).symm⟩
+            simp [this, ht]
+          · have : (s.reg.filter (fun ix => decide (ix.table = n))).any (fun d => norm d.name == e.1) = false := by
+              simp only [List.any_eq_false, List.mem_filter, decide_eq_true_eq, beq_iff_eq]
+              rintro d ⟨hd, hdt⟩ hk
+              rw [← h1] at hd
+              obtain ⟨e', he', rfl⟩ := List.mem_map.mp hd
+              have hk2 : e'.1 = e.1 := by rw [h2 e' he']; exact hk
+              have := key_inj _ h3 e' he' e he hk2
+              subst this; exact ht hdt
+            simp [this, ht])
+      exact RegInv_congr norm _ _ this rfl rfl
+    · exact h
+  | createIndex i n cols =>
+    simp only [step]; split
+    · exact h
+    · split
+      · split
+        · exact h
+        · rename_i hnot
+          obtain ⟨h1, h2, h3⟩ := h
+          refine ⟨by simp [h1], ?_, ?_⟩
+          · intro e he
+            simp only [List.mem_append, List.mem_singleton] at he
+            rcases he with he | rfl
+            · exact h2 e he
+            · rfl
+          · simp only [List.map_append, List.map_cons, List.map_nil]
+            rw [List.nodup_append]
+            refine ⟨h3, by simp, ?_⟩
+            intro a ha b hb
+            simp only [List.mem_singleton] at hb
+            subst hb
+            intro hab; subst hab
+            apply hnot
+            obtain ⟨e, he, rfl⟩ := List.mem_map.mp ha
+            simp only [List.any_eq_true, beq_iff_eq]
+            exact ⟨e, he, rfl⟩
+      · exact h
+  | dropIndex i =>
+    simp only [step]; split
+    · rename_i m hm
+      have hm1 := List.find?_some hm
+      have hm2 := List.mem_of_find?_eq_some hm
+      simp only [beq_iff_eq] at hm1
+      have := sync_filter norm s (fun e => !(e.1 == norm i)) (fun d => !(d.table == m.table && d.name == i)) h (by
+        intro e he
+        obtain ⟨h1, h2, h3⟩ := h
+        rw [← h1] at hm2
+        obtain ⟨em, hem, hmeq⟩ := List.mem_map.mp hm2
+        by_cases hk : e.1 = norm i
+        · have hkm : em.1 = e.1 := by rw [h2 em hem, hmeq, hm1, hk]
+          have := key_inj _ h3 em hem e he hkm
+          subst this
+          simp [hk, hmeq, hm1]
+        · have : ¬ (e.2.table = m.table ∧ e.2.name = i) := by
+            rintro ⟨_, hn⟩; apply hk; rw [h2 e he, hn]
+          simp only [hk, beq_iff_eq, Bool.and_eq_true]
+          simp [this])
+      exact RegInv_congr norm _ _ this rfl rfl
+    · split
+      · rename_i v hv
+        have hv1 := List.find?_some hv
+        have hv2 := List.mem_of_find?_eq_some hv
+        simp only [beq_iff_eq] at hv1
+        have := sync_filter norm s (fun e => !(e.1 == norm i)) (fun d => !(d.table == v.2.table && d.name == v.2.name)) h (by
+          intro e he
+          obtain ⟨h1, h2, h3⟩ := h
+          by_cases hk : e.1 = norm i
+          · have := key_inj _ h3 v hv2 e he (by rw [hv1, hk])
+            subst this
+            simp [hk]
+          · have : ¬ (e.2.table = v.2.table ∧ e.2.name = v.2.name) := by
+              rintro ⟨_, hn⟩; apply hk; rw [h2 e he, hn, ← h2 v hv2, hv1]
+            simp only [hk, beq_iff_eq, Bool.and_eq_true]
+            simp [this])
+        exact RegInv_congr norm _ _ this rfl rfl
+      · exact h
+  | insert n r =>
+    simp only [step]; split
+    · split
+      · exact h
+      · split
+        · exact h
+        · exact RegInv_congr norm s _ h rfl rfl
+    · exact h
+  | clear n =>
+    simp only [step]; split
+    · exact RegInv_congr norm s _ h rfl rfl
+    · exact h
+  | addColumn n c =>
+    simp only [step]; split
+    · exact h
+    · split
+      · exact h
+      · exact RegInv_congr norm s _ h rfl rfl
+  | dropColumn n c =>
+    simp only [step]; split
+    · exact h
+    · split
+      · exact h
+      · split
+        · have := sync_filter norm s (fun e => !(namesCol n c e.2))
+            (fun d => !(addressed (s.sreg.filter (fun e => namesCol n c e.2)) d)) h (by
+              intro e he; rw [addressed_iff norm s n c h e he])
+          exact RegInv_congr norm _ _ this rfl rfl
+        · exact h
+  | changeColumn n old new =>
+    simp only [step]; split
+    · exact h
+    · split
+      · split
+        · exact h
+        · obtain ⟨h1, h2, h3⟩ := h
+          refine ⟨?_, ?_, ?_⟩
+          · simp only [updCatalog, updStored, List.map_map]
+            rw [← h1, List.map_map]
+            apply List.map_congr_left
+            intro e he
+            simp only [Function.comp]
+            rw [h1, addressed_iff norm s n old ⟨h1, h2, h3⟩ e he]
+            split <;> rfl
+          · intro e he
+            simp only [updCatalog, updStored, List.mem_map] at he
+            obtain ⟨e0, he0, rfl⟩ := he
+            split
+            · exact h2 e0 he0
+            · exact h2 e0 he0
+          · simp only [updCatalog, updStored, List.map_map]
+            have : (List.map ((fun e : String × DIndex => e.1) ∘ fun e => if namesCol n old e.2 = true then (e.1, { e.2 with cols := colsRename old new e.2.cols }) else e) s.sreg)
+                = s.sreg.map (fun e => e.1) := by
+              apply List.map_congr_left
+              intro e _
+              simp only [Function.comp]
+              split <;> rfl
+            rw [this]; exact h3
+      · exact h
+  | modifyColumn n c =>
+    simp only [step]; split
+    · exact h
+    · split <;> exact h
+
+/-- after every history the catalog's index list and the storage registry hold the same indexes
+under the same names, whatever spelling the names have and whatever the key normalisation is -/
+theorem C33_registries_agree (ops : List DOp) : RegInv norm (run norm init ops) := by
+  have : ∀ s, RegInv norm s → RegInv norm (run norm s ops) := by
+    induction ops with
+    | nil => intro s h; exact h
+    | cons op ops ih => intro s h; exact ih _ (C33_registries_step norm s op h)
+  exact this init (RegInv_init norm)
+
+/-- non-vacuity with a real normalisation clash: delimited lower-case and unquoted names, an
+index named like another up to case is refused, DROP COLUMN removes the delimited-name index from
+both lists -/
+example :
+    let up : String → String := fun x => if x = "idx_a" then "IDX_A" else if x = "ix1" then "IX1" else x
+    let s := run up init [.createTable "T" ["A", "B"], .createIndex "idx_a" "T" ["A"], .createIndex "IX1" "T" ["B"],
+      .createIndex "ix1" "T" ["A"], .dropColumn "T" "A"]
+    s.reg.map (fun d => d.name) = ["IX1"] ∧ s.sreg.map (fun e => e.1) = ["IX1"] ∧
+    (step up s (.createIndex "idx_a" "T" ["B"])).2 = none := by
+  decide
+
 /-- non-vacuity: a history with name reuse, an index, rows, and ALTER; the invariant holds and
 the tables are not empty -/
 example :
-    let s := run init [.createTable "T" ["A", "B"], .createIndex "I" "T" ["B"], .insert "T" [.int 1, .int 2],
+    let s := run (fun x => x) init [.createTable "T" ["A", "B"], .createIndex "I" "T" ["B"], .insert "T" [.int 1, .int 2],
       .dropTable "T", .createTable "T" ["X"], .insert "T" [.int 5], .createTable "t" ["A"], .addColumn "T" "Y"]
     s.catalog.map (fun e => e.1) = ["T", "t"] ∧ s.reg = [] ∧
       stTable s "T" = some { cols := ["X", "Y"], rows := [[.int 5, .null]] } := by
